@@ -25,7 +25,8 @@ def c14(ck):
     v = util.judge_parallel(ck, "Trace_ElfReader", out, "BuildId / SoName readers on generated images for every model path (slice and file), every header field at boundary values (64- and 32-bit), field pairs/triples, random bytes and byte flips, the machine's ELF files vs the independent reader, live mappings memory vs file",
                             "ElfReader", describe, jobs=4)
     c = v["counts"]
-    if c["elf"] == 0 or c["fuzz"] == 0 or c["sys"] == 0 or c["live"] == 0:
+    # (the driver stops early once three readers have failed to return: then the violations are the result)
+    if (c["elf"] == 0 or c["fuzz"] == 0 or c["sys"] == 0 or c["live"] == 0) and not ck.violations:
         raise core.ToolError(f"vacuous: {c}")
     ck.cov["distinct_nontrivial"] = c["elf"] + c["fuzz"] + c["sys"] + c["live"]
     ck.cov["traces_validated_against_impl"] = v["checked"]
